@@ -15,7 +15,7 @@ import yaml
 from copy import deepcopy
 
 from .rank    import Rank
-from .fiber   import Fiber
+from .fiber   import Fiber, FibertreeLoader
 from .payload import Payload
 
 #
@@ -1953,7 +1953,7 @@ class Tensor:
 
         with open(file, 'r') as stream:
             try:
-                y_file = yaml.safe_load(stream)
+                y_file = yaml.load(stream, Loader=FibertreeLoader)
             except yaml.YAMLError as exc:
                 print(exc)
                 exit(1)
